@@ -5,7 +5,7 @@ import recvlib, senderlib
 # property -> list of (session family, n sessions quick/thorough, channel family, maxn, n behaviours quick/thorough)
 PLANS = {
     "C01": [("clean", 220, 2500, "clean", 99, None, None), ("wide", 10, None, "clean", 99, 10, None), ("many", None, None, "clean", 99, 8, None)],
-    "C02": [("small", 200, None, "subsets", 13, 5000, 60000), ("small", 120, 600, "dups", 8, 2500, 30000),
+    "C02": [("small", 600, None, "boundary", 99, None, None), ("small", 200, None, "subsets", 13, 5000, 60000), ("small", 120, 600, "dups", 8, 2500, 30000),
             ("car", 40, 200, "subsets", 16, 2500, 30000), ("medium", 40, None, "rloss", 999, 300, 8000), ("many", None, None, "rloss", 999, 40, None)],
     "C03": [("small", 200, None, "perms", 6, 4000, 60000), ("small", 200, 2000, "corrupt", 99, 3000, 120000),
             ("small", 100, 400, "dups", 8, 1500, 20000), ("car", 30, 120, "perms", 5, 1500, 20000),
@@ -78,7 +78,7 @@ def main(ctx):
         nb = nbq if ctx.tier == "quick" else nbt
         specs = recvlib.gen_sessions(ctx, sfam)
         total_sessions = len(specs)
-        specs = senderlib.sample(specs, ns, ctx.seed)
+        specs = recvlib.sample_sessions(specs, ns, ctx.seed)
         infos = recvlib.session_infos(ctx, specs, sfam)
         behs = recvlib.gen_chan(ctx, cfam, infos, maxn=maxn)
         if cfam == "join":
